@@ -215,9 +215,13 @@ func runC06case(t *vf.T, pool *sessionPool, c c06case) {
 	wa, _, _ := evalSpec(&after, nil)
 	a := runSpec(ls, after, [2]bigslice.Slice{}, true, 120*time.Second)
 	switch {
-	case a.TimedOut:
-		t.Violate(sig+" session-unusable", "a trivial run after the failure did not return within 120 s")
+	case a.TimedOut && a.Stalled:
+		t.Violate(sig+" session-unusable", "a trivial run after the failure did not return within 120 s and nothing in the session can make progress any more ("+a.Quiet+")")
 		dumpGoroutines("c06-after-" + f.Run)
+		pool.drop(c.Conf)
+		return
+	case a.TimedOut:
+		t.Inconclusive("watchdog: a trivial run after the failure did not return within 120 s (" + a.Quiet + ")")
 		pool.drop(c.Conf)
 		return
 	case a.RunErr != nil || a.ScanErr != nil || a.Panic != nil:
